@@ -137,3 +137,10 @@ OBLIGATIONS = [Obligation(
                  "two values of one tag with the same time: either may be shown",
                  "log statements removed at import"],
 )]
+
+MANIFEST = {
+    "level": "model_checking",
+    "text": "Bounded exhaustive symbolic execution (CrossHair/z3) of the real csv_generator functions with a row recorder in place of csv.writer: plot logs of 2 tags with up to 3 values each (quick, at most 5 values) / 3 tags with up to 4 values each (thorough, at most 6 values) whose tick times are unconstrained reals, so every relative order (interleaved, late start, repeated, unsorted) is covered; every cell is compared with the sample-and-hold reference.",
+    "note": "Trusted: CrossHair's real-valued float model (floats treated as reals), z3, the row recorder. Values are distinct concrete labels (the code only copies them). Textual CSV formatting (C writer) and larger plot logs are outside the claim.",
+    "technique": "symbolic execution of the real code (CrossHair + z3) with symbolic real tick times, bounded exhaustive, counterexample replay",
+}
